@@ -201,11 +201,11 @@ Section Parse.
     assert (Hidk : id_given w k d = true).
     { unfold id_given. rewrite Efc. destruct (is_sco21 c) eqn:Es; cbn [negb orb]; auto.
       destruct Hid as [Hi | Hi]; [exact Hi |]. rewrite (Hi t eq_refl) in Hsco. specialize (Hsco eq_refl). discriminate. }
-    destruct (run_construct_cg vr ev w pattern_ok selectors_ok ids Hclosed f' k allow interop d None _ Hkm Hidk Er)
+    destruct (run_construct_cg vr ev w pattern_ok selectors_ok ids Hclosed f' k allow interop d None _ Hkm Hp Hidk Er)
       as [c' [Efc' [Hcok Hcg]]].
     rewrite Efc in Efc'. inv Efc'.
     pose proof (run_construct_idem vr ev w pattern_ok selectors_ok Hpad ids Hclosed (S f') k allow interop d None _ Hkm Hp Hidk Er)
-      as [_ [_ Hre]].
+      as [_ [_ [Hre _]]].
     pose proof (run_construct_idem vr ev w pattern_ok selectors_ok Hpad ids Hclosed f') as Hclaim.
     pose proof (claim_rc vr ev w pattern_ok selectors_ok ids f' Hclaim) as Hrc.
     unfold class_ok in Hcok.
